@@ -413,6 +413,13 @@ def ensure_model(coq_dir):
         subprocess.run(["timeout", "600", "coqc", "-Q", coq_dir, "LBFGSB", v], check=True)
 
 
+def _cleanup_cases(case_dir, failures):
+    """case files are kept only when something disagreed (they are the replay)"""
+    import shutil
+    if not failures:
+        shutil.rmtree(case_dir, ignore_errors=True)
+
+
 def run(tier="quick", seed=0, coq_dir=HERE, case_dir=None, per_file=300, jobs=None):
     n = {"quick": 600, "thorough": 10000}[tier] if isinstance(tier, str) else int(tier)
     rng = random.Random(seed)
@@ -517,6 +524,7 @@ def run(tier="quick", seed=0, coq_dir=HERE, case_dir=None, per_file=300, jobs=No
     stats["FG_steps_NaN"] = nan_steps
     stats["FG_steps_NaN_with_finite_inputs"] = nan_steps_clean
     stats["FG_steps_nonNaN_outside_range"] = out_of_range
+    _cleanup_cases(case_dir, failures)
     return failures, stats
 
 
